@@ -44,6 +44,9 @@ class SymP:
         d = {"kind": "eq", "got": got, "want": want}
         if detail:
             d.update(detail)
+        if not is_sym(got) and not is_sym(want) and (isinstance(got, float) or isinstance(want, float)):
+            # both sides are concrete machine numbers on this path: compare like the concrete oracle does
+            return self.ctx.prove(_close(got, want), label, d)
         return self.ctx.prove(got == want, label, d)
 
     def check(self, label, cond, detail=None):
@@ -247,16 +250,27 @@ def _leaves(tree, out):
     return out
 
 
-def nice_model(path, inp, extra=(), timeout_ms=10000):
-    """a model of the path condition with 'nice' input values (moderate magnitudes, separated reals)"""
+def nice_model(path, inp, extra=(), timeout_ms=10000, allow_raw=True):
+    """a model of the path condition with 'nice' input values (moderate magnitudes, separated dyadic reals)"""
     leaves = _leaves(inp, [])
     reals = [l.e for l in leaves if isinstance(l, SReal)]
     ints = [l.e for l in leaves if isinstance(l, SInt)]
     base = list(path) + list(extra)
+    # 1. ground attempts: all real inputs fixed to random nice values (instant even on nonlinear paths)
+    if reals:
+        rng = random.Random(len(base) * 31 + len(reals))
+        grid = [Fraction(k, 16) for k in range(-160, 161) if abs(k) >= 4]
+        for _ in range(24):
+            vals = rng.sample(grid, min(len(reals), len(grid)))
+            while len(vals) < len(reals):
+                vals.append(rng.choice(grid))
+            fix = [r == z3.RealVal(v) for r, v in zip(reals, vals)] + [z3.And(v >= -1000, v <= 1000) for v in ints]
+            r, m = symx.solve_fresh(base + fix, 2000)
+            if r == "sat":
+                return m
     nice = []
     for r in reals:
         nice.append(z3.Or(z3.And(r >= z3.RealVal("1/4"), r <= 50), z3.And(r <= -z3.RealVal("1/4"), r >= -50)))
-        # dyadic: exactly representable floats
         k = z3.Int("nice!%d" % len(nice))
         nice.append(r * 16 == z3.ToReal(k))
     for i, a in enumerate(reals):
@@ -265,7 +279,8 @@ def nice_model(path, inp, extra=(), timeout_ms=10000):
     for v in ints:
         nice.append(z3.And(v >= -1000, v <= 1000))
     mild = [z3.And(r >= -1000, r <= 1000) for r in reals] + [z3.And(v >= -1000, v <= 1000) for v in ints]
-    for cons in (base + nice, base + [c for c in nice[: 2 * len(reals)]] + nice[-len(ints) :] if ints else base + nice[: 2 * len(reals)], base + mild, base):
+    attempts = [base + nice, base + mild] + ([base] if allow_raw else [])
+    for cons in attempts:
         r, m = symx.solve_fresh(cons, timeout_ms)
         if r == "sat":
             return m
@@ -386,9 +401,9 @@ def run_cell(h, cell, tier, seed, budget_s):
             if tier == "thorough" and nval[0] >= cell.get("max_validate", 400):
                 want = False
             if want and not ctx.violations:
-                m = nice_model(ctx.path, ctx.inputs)
+                m = nice_model(ctx.path, ctx.inputs, timeout_ms=4000, allow_raw=False)
                 if m is None:
-                    res["notes"].append("no model for validation on a path")
+                    res["unvalidated_paths"] = res.get("unvalidated_paths", 0) + 1  # no well-conditioned witness: skipped, not failed
                     return
                 inp_exact = evaluate(ctx.inputs, m)
                 try:
@@ -428,6 +443,7 @@ def run_cell(h, cell, tier, seed, budget_s):
             labels=dict(st.labels),
             validated=nval[0],
             nontrivial=len(distinct),
+            concolic=getattr(st, "concolic", 0),
         )
         if not er.complete:
             res["status"] = "incomplete"
@@ -638,6 +654,8 @@ def finish(h, tier, seed, cells, results, wall):
             problems.append("%s: %d trace-validation mismatches, first: %s" % (r["cell"], len(r["validation_errors"]), json.dumps(r["validation_errors"][0])[:800]))
         if r.get("status") == "ok" and r.get("paths", 0) > 0 and r.get("obligations", 0) > 0 and r.get("vacuity_sites", 0) == 0:
             problems.append("%s: vacuity twin found no reachable assertion" % r["cell"])
+        if r.get("concolic", 0) and not r.get("violations"):
+            problems.append("%s: repository code forced %d symbolic reals to machine floats (float()/astype); those paths were continued with one representative value each, so the claim is not fully symbolic" % (r["cell"], r["concolic"]))
         if r.get("status") == "ok" and r.get("paths", 0) == 0:
             problems.append("%s: no feasible path (vacuous cell)" % r["cell"])
         for v in r.get("violations", []):
